@@ -2,6 +2,7 @@ package main
 
 import (
 	"fmt"
+	"go/constant"
 	"go/token"
 	"strings"
 
@@ -59,8 +60,9 @@ func ruleTagPreserve(c *Ctx) {
 		if strings.HasPrefix(ssaFuncName(f), "cmd/plenctag.config.rewrite$") {
 			for _, b := range f.Blocks {
 				for _, in := range b.Instrs {
-					if call, ok := in.(*ssa.Call); ok {
-						if cal := call.Common().StaticCallee(); cal != nil && cal.Name() == "Set" {
+					// the closure that rewrites a field's tag literal
+					if st, ok := in.(*ssa.Store); ok {
+						if fa, ok := st.Addr.(*ssa.FieldAddr); ok && fieldName(fa) == "Value" && typeName(deref(fa.X.Type())) == "BasicLit" {
 							rf = f
 						}
 					}
@@ -124,6 +126,60 @@ func ruleTagPreserve(c *Ctx) {
 				n++
 				c.Oblige("G.preserve", absent(b), x.Pos(), name, "f.Tag.Value rewritten only when there is no plenc tag",
 					"an existing plenc tag must be kept as it is: the rewrite must be dominated by the branch where tags.Get(\"plenc\") reports the key absent", nil)
+				// the new text is the old text plus the plenc tag - not a re-rendering of the parsed tags
+				rerender, fromOld, plencLit := false, false, false
+				seenV := map[ssa.Value]bool{}
+				var walk func(v ssa.Value, depth int)
+				walk = func(v ssa.Value, depth int) {
+					if v == nil || depth > 25 || seenV[v] {
+						return
+					}
+					seenV[v] = true
+					switch y := v.(type) {
+					case *ssa.Const:
+						if y.Value != nil && y.Value.Kind() == constant.String && strings.Contains(constant.StringVal(y.Value), "plenc:") {
+							plencLit = true
+						}
+					case *ssa.BinOp:
+						walk(y.X, depth+1)
+						walk(y.Y, depth+1)
+					case *ssa.Phi:
+						for _, e := range y.Edges {
+							walk(e, depth+1)
+						}
+					case *ssa.Extract:
+						walk(y.Tuple, depth+1)
+					case *ssa.Call:
+						if cal := y.Common().StaticCallee(); cal != nil {
+							switch {
+							case strings.Contains(cal.String(), "structtag") && cal.Name() == "String":
+								rerender = true
+							case cal.String() == "strconv.Unquote":
+								fromOld = true
+							}
+						}
+						for _, a := range y.Common().Args {
+							walk(a, depth+1)
+						}
+					case *ssa.UnOp:
+						if al, ok := y.X.(*ssa.Alloc); ok {
+							for _, r := range *al.Referrers() {
+								if st, ok := r.(*ssa.Store); ok && st.Addr == ssa.Value(al) {
+									walk(st.Val, depth+1)
+								}
+							}
+						}
+					case *ssa.Convert:
+						walk(y.X, depth+1)
+					case *ssa.MakeClosure:
+					}
+				}
+				walk(x.Val, 0)
+				if !(isConstString(x.Val, "")) {
+					n++
+					c.Oblige("G.preserve", !rerender && fromOld && plencLit, x.Pos(), name, "the new tag text is the old text with the plenc tag added",
+						"every other tag key must be kept as it was: the new literal must be built from the unquoted old text plus plenc:\"…\"; rendering the parsed tags back (tags.String()) normalises the other keys (json:\"-,\" becomes json:\"-\", spacing and escapes change)", nil)
+				}
 			case *ssa.Call:
 				cal := x.Common().StaticCallee()
 				if cal == nil || cal.Name() != "Set" || !strings.Contains(cal.String(), "structtag") {
@@ -275,6 +331,8 @@ func init() {
 			ruleTagPreserve(c)
 			ruleTagHelpers(c)
 			ruleTagRun(c)
+			ruleTagRound6(c)
+			ruleTagRound6b(c)
 		},
 	})
 }
